@@ -500,6 +500,17 @@ def annotation_of(t):
     return r[1]
 
 
+OBS_SLOT = 255
+MAX_LOG = 1024
+
+
+def observe(pt, enc):
+    """The end of every program: the encoding goes to scratch slot 255 (returned by the AVM's run command) and, when the
+    AVM's log limit (1024 bytes per call) allows, is logged as well: Log(value.encode())."""
+    obs = pt.ScratchVar(pt.TealType.bytes, OBS_SLOT)
+    return pt.Seq(obs.store(enc), pt.If(pt.Len(obs.load()) <= pt.Int(MAX_LOG)).Then(pt.Log(obs.load())))
+
+
 def build_program(pt, t, r, backend, n_bytes):
     """The PyTeal program (an Expr) that assembles the value and logs its encoding.
     Run-time inputs: ApplicationArgs[0] = the uint64 inputs packed big-endian, ApplicationArgs[1+j] = byte string j."""
@@ -510,13 +521,13 @@ def build_program(pt, t, r, backend, n_bytes):
     if backend == "main":
         b = Builder(pt, ints_arg, bytes_args)
         x = b.build(t, r)
-        return pt.Seq(*b.steps, pt.Log(x.encode()), pt.Approve())
+        return pt.Seq(*b.steps, observe(pt, x.encode()), pt.Approve())
 
     if backend == "sub":
         def body():
             b = Builder(pt, ints_arg, bytes_args)
             x = b.build(t, r)
-            return pt.Seq(*b.steps, pt.Log(x.encode()))
+            return pt.Seq(*b.steps, observe(pt, x.encode()))
         body.__name__ = "assemble"
         sub = pt.Subroutine(pt.TealType.none)(body)
         return pt.Seq(sub(), pt.Approve())
@@ -532,7 +543,7 @@ def build_program(pt, t, r, backend, n_bytes):
         body.__annotations__ = {"output": ann, "return": pt.Expr}
         sub = pt.ABIReturnSubroutine(body)
         res = AB.to_pyteal(t).new_instance()
-        return pt.Seq(sub().store_into(res), pt.Log(res.encode()), pt.Approve())
+        return pt.Seq(sub().store_into(res), observe(pt, res.encode()), pt.Approve())
 
     if backend == "subargs":
         # the inputs travel as subroutine arguments (frame slots with negative index under frame pointers):
@@ -544,19 +555,19 @@ def build_program(pt, t, r, backend, n_bytes):
                 def body(ia):
                     b = Builder(pt, ia, bytes_args)
                     x = b.build(t, r)
-                    return pt.Seq(*b.steps, pt.Log(x.encode()))
+                    return pt.Seq(*b.steps, observe(pt, x.encode()))
                 body.__annotations__ = {"ia": pt.Expr}
             elif nb == 1:
                 def body(ia, b0):
                     b = Builder(pt, ia, [b0] + bytes_args[1:])
                     x = b.build(t, r)
-                    return pt.Seq(*b.steps, pt.Log(x.encode()))
+                    return pt.Seq(*b.steps, observe(pt, x.encode()))
                 body.__annotations__ = {"ia": pt.Expr, "b0": pt.Expr}
             else:
                 def body(ia, b0, b1):
                     b = Builder(pt, ia, [b0, b1.get()] + bytes_args[2:])
                     x = b.build(t, r)
-                    return pt.Seq(*b.steps, pt.Log(x.encode()))
+                    return pt.Seq(*b.steps, observe(pt, x.encode()))
                 body.__annotations__ = {"ia": pt.Expr, "b0": pt.Expr, "b1": abi.DynamicBytes}
             body.__name__ = "assemble"
             return body
@@ -591,7 +602,7 @@ def build_program(pt, t, r, backend, n_bytes):
         b = Builder(pt, ints_arg, bytes_args)
         ms = [b.build(mt, mr) for mt, mr in zip(mts, r[1])]
         res = AB.to_pyteal(t).new_instance()
-        return pt.Seq(*b.steps, sub(*ms).store_into(res), pt.Log(res.encode()), pt.Approve())
+        return pt.Seq(*b.steps, sub(*ms).store_into(res), observe(pt, res.encode()), pt.Approve())
 
     raise ValueError(backend)
 
@@ -632,9 +643,12 @@ def run_on_avm(avm, teal, ints, byts, fuel=60000):
     v = res[1]
     if v == S("approve"):
         logs = [e[1] for e in res[3][1:] if e[0] == S("log")]
-        if len(logs) != 1:
-            return ("inconclusive", "approve with %d log entries" % len(logs))
-        return ("ok", logs[0])
+        obs = [kv[1] for kv in res[4][1] if kv[0] == OBS_SLOT]
+        if len(obs) != 1 or not isinstance(obs[0], (bytes, bytearray)):
+            return ("inconclusive", "approve without an observed value in slot %d" % OBS_SLOT)
+        if (logs != [obs[0]]) if len(obs[0]) <= MAX_LOG else (logs != []):
+            return ("inconclusive", "log trace %r does not match the observed value" % ([l[:8] for l in logs],))
+        return ("ok", obs[0])
     if v == S("fail"):
         return ("fail",)
     if v == S("reject"):
